@@ -11,7 +11,7 @@ R5 every non-NONE WhatsModifiedFlag member is produced somewhere
 import ast
 
 from ..core import AnalysisError, norm, loc, walk_no_nested, attr_chain, call_name, func_params, kwarg
-from ..normalize import inline, local_env, expand, canon, ctext, branch_values, merge_outcomes, Unknown, eval_test, builders, comp_builder, _enclosing
+from ..normalize import alpha, inline, local_env, expand, canon, ctext, branch_values, merge_outcomes, Unknown, eval_test, builders, comp_builder, _enclosing
 from .. import fieldwise as fw
 
 BASE = 'fim.slivers.base_sliver:BaseSliver'
@@ -48,11 +48,11 @@ def run(prog, rep):
         if isinstance(n, ast.Dict):
             for k, v in zip(n.keys, n.values):
                 if isinstance(k, ast.Constant) and k.value in ('added', 'removed'):
-                    keys[k.value] = ast.unparse(v)
+                    keys[k.value] = ast.unparse(alpha(v))
     rep.instance('R3', f'_dict_diff: added={keys.get("added", "?")[:60]} removed={keys.get("removed", "?")[:60]}')
     a, b = [x.arg for x in dd.args.args][:2]
-    want_added = f'{{k: {b}[k] for k in set({b}) - set({a})}}'
-    want_removed = f'{{k: {a}[k] for k in set({a}) - set({b})}}'
+    want_added = f'{{_c0: {b}[_c0] for _c0 in set({b}) - set({a})}}'
+    want_removed = f'{{_c0: {a}[_c0] for _c0 in set({a}) - set({b})}}'
     if keys.get('added') != want_added or keys.get('removed') != want_removed:
         rep.violation('R3', loc(base.module, dd), 'BaseSliver._dict_diff', 'added/removed definition',
                       f'_dict_diff must define added = entries of the second dict whose key is not in the first and '
